@@ -101,3 +101,35 @@ Proof. intros s now c r. split; [apply RttProofs.configured_is_kept_send | apply
 Print Assumptions C06_fresh_interval_is_configured.
 Print Assumptions C06_stale_interval_is_configured.
 Print Assumptions C06_configured_is_kept.
+
+(* ---- "a request first sent at t0 ..." / "over a reliable transport it is transmitted once": on the model an accepted
+   request IS transmitted in that very call — the first conjunct of Monitors.mon_C06_initial, unconditionally, for every
+   client state (Proofs/AgentMeets5.v); a refused one produces nothing and changes nothing *)
+From Rustun Require Import Proofs.AgentMeets2 Proofs.AgentMeets3 Proofs.AgentMeets5.
+Theorem C06_accepted_send_is_transmitted :
+  forall (c:Model.client) (now:N) (id:Model.txid) (r method:N) (app:list Model.attr) (room:bool)
+         (c':Model.client) (rep:Model.reply) (evs:list Model.event),
+  Model.step c (Model.Send now id r method app room) = (c', rep, evs) ->
+  AgentMeets.oret_of rep = Monitors.OOk ->
+  exists (p:Model.msg) (rest:list Model.event), rep = Model.ROk (Some id) /\ evs = Model.Out id true p :: rest
+    /\ Model.m_class p = Model.CRequest /\ Model.m_id p = id /\ Model.m_method p = method
+    /\ (exists x, Model.lookup id (Model.T c') = Some x /\ Model.pkt x = p)
+    /\ Monitors.first_out (AgentMeets.obs_of c c' (Model.Send now id r method app room) rep evs) = Some (Some p).
+Proof. exact AgentMeets5.model_accepted_send_is_transmitted. Qed.
+Print Assumptions C06_accepted_send_is_transmitted.
+(* the whole clause mon_C06_initial, in exactly the form ocaml/driver.ml runs it on the implementation (on the C15 monitor
+   state BEFORE the call), accepts every step of the model in every well-formed history — given that the history hands the
+   request the configured RTO while that monitor state holds no estimate (the interval of a Send is an INPUT of the model's
+   history: AgentMeets5.hands_configured; AgentMeets5.initial_needs_hypothesis shows the hypothesis cannot be dropped).
+   On reliable transport there is no hypothesis (AgentMeets5.model_meets_C06_initial_reliable) *)
+Theorem C06_model_meets_initial_monitor :
+  forall (cf:Model.config) (m:Model.mech) (mc:Monitors.mcfg) (cc:Monitors.ccfg) (ops:list Model.op),
+  AgentMeets.consistent mc cf -> AgentMeets2.consistent_cc cc cf m -> AgentMeets.well_formed_history ops ->
+  forall (a:list Model.op) (o:Model.op) (b:list Model.op), ops = a ++ o :: b ->
+    let c := fst (AgentMeets3.run_state mc cc (Model.init cf m) (Monitors.mall0 cc) a) in
+    let s := snd (AgentMeets3.run_state mc cc (Model.init cf m) (Monitors.mall0 cc) a) in
+    (Monitors.cc_reliable cc = false -> AgentMeets5.hands_configured cc (Monitors.ma_rtt s) o) ->
+    let '(c', rep, evs) := Model.step c o in
+    Monitors.mon_C06_initial mc cc (Monitors.ma_rtt s) (AgentMeets.mop_of o rep) (AgentMeets.obs_of c c' o rep evs) = true.
+Proof. exact AgentMeets5.model_meets_C06_initial. Qed.
+Print Assumptions C06_model_meets_initial_monitor.
